@@ -39,7 +39,7 @@ BORDERLINE_F64 = 1024.0  # float64 variants: the f32-vs-f64 discrepancy scaled b
 HALF_POOL = [0.5, -0.5, 1.5, -1.5, 2.5, -2.5, 3.5, -3.5, 0.0, 1.0, -1.0, 2.0, -2.0, 4.5, -4.5]
 MAG_POOL = [0.0, 1.0, -1.0, 1e-3, -1e-3, 1e-6, -1e-6, 20.0, -20.0, 100.0, -100.0, 1e4, -1e4, 0.25, -7.0,
             3.0, 1e-20, 88.0, -88.0, 16.5]
-KINDS = ["own", "half", "mag", "neg", "unit"]
+KINDS = ["own", "half", "mag", "neg", "unit", "mag2", "half2"]     # thorough; quick uses the first four
 
 
 # --------------------------------------------------------------------------------------- rng
@@ -64,8 +64,16 @@ class Rng:
 
 
 def case_seed(seed: int, cid: str, kind: str) -> int:
-    h = hashlib.sha256(f"{seed}|{cid}|{kind}".encode()).hexdigest()
+    """The adversarial draw is a deterministic function of (testcase id, kind incl. draw index) ONLY —
+    independent of VERIF_SEED — so that one complete thorough pass enumerates every outcome any quick run
+    can ever see (closed world).  `seed` is accepted for the signature's sake and ignored."""
+    h = hashlib.sha256(f"draw-v1|{cid}|{kind}".encode()).hexdigest()
     return int(h[:15], 16)
+
+
+def base_kind(kind: str) -> str:
+    """`mag2` = second draw index of kind `mag`."""
+    return kind.rstrip("0123456789")
 
 
 # --------------------------------------------------------------------------------------- cases
@@ -157,8 +165,23 @@ def _keep_structure(arr, own):
     return arr
 
 
+def _cyclic(pool, n, rng: Rng):
+    """n values that cover the pool as completely as n allows: a seeded permutation of the pool, repeated,
+    then shuffled in place by blocks (so that coverage does not depend on luck)."""
+    perm = list(pool)
+    for i in range(len(perm) - 1, 0, -1):
+        j = rng.below(i + 1)
+        perm[i], perm[j] = perm[j], perm[i]
+    vals = [perm[i % len(perm)] for i in range(n)]
+    for i in range(n - 1, 0, -1):       # positions are shuffled too (value multiset kept)
+        j = rng.below(i + 1)
+        vals[i], vals[j] = vals[j], vals[i]
+    return vals
+
+
 def _fill_float(shape, dtype, kind: str, rng: Rng, own=None):
     import numpy as np
+    kind = base_kind(kind)
     return _keep_structure(_fill_float0(shape, dtype, kind, rng, own), None if kind == "own" else own)
 
 
@@ -170,9 +193,9 @@ def _fill_float0(shape, dtype, kind: str, rng: Rng, own=None):
     if kind == "own" and own is not None:
         return np.asarray(own).astype(dtype)
     if kind == "half":
-        vals = [HALF_POOL[rng.below(len(HALF_POOL))] for _ in range(n)]
+        vals = _cyclic(HALF_POOL, n, rng)
     elif kind == "mag":
-        vals = [MAG_POOL[rng.below(len(MAG_POOL))] for _ in range(n)]
+        vals = _cyclic(MAG_POOL, n, rng)
     elif kind == "neg":       # negative-dominated, zeros, a few positives; exactly representable
         vals = [(-(rng.below(64)) / 8.0) if rng.below(8) else (rng.below(16) / 4.0) for _ in range(n)]
     elif kind == "unit":      # inside [-1, 1] incl. the boundaries
@@ -185,6 +208,7 @@ def _fill_float0(shape, dtype, kind: str, rng: Rng, own=None):
 
 def _fill_int(shape, dtype, kind: str, rng: Rng, own=None):
     import numpy as np
+    kind = base_kind(kind)
     n = 1
     for d in shape:
         n *= d
@@ -217,6 +241,7 @@ def _fill_int(shape, dtype, kind: str, rng: Rng, own=None):
 
 def _fill_bool(shape, kind: str, rng: Rng, own=None):
     import numpy as np
+    kind = base_kind(kind)
     n = 1
     for d in shape:
         n *= d
@@ -434,6 +459,13 @@ def compare(ort_out, j_main, j_ref, f64: bool, j_pert=None, declared=None, unord
                 skipped_nan += int(overflowed.sum())       # JAX's own f32 evaluation overflowed
                 inf_e = inf_e & ~overflowed
                 nan_e = nan_e | overflowed
+            if rr is not None and np.asarray(rr).shape == ee.shape:
+                with np.errstate(all="ignore"):
+                    rrf = np.asarray(rr, dtype=np.float64)
+                    noinfo = np.isfinite(ee) & np.isfinite(rrf) & (np.abs(ee - rrf) >= 0.5 * np.maximum(np.abs(ee), np.abs(rrf))) \
+                        & (np.maximum(np.abs(ee), np.abs(rrf)) > 0)
+                skipped_nan += int(noinfo.sum())   # JAX's own f32 / f64 evaluations disagree by >= 50 %: nothing to compare with
+                nan_e = nan_e | noinfo
             singular = inf_e & np.isnan(oo)      # a pole / boundary: JAX says ±inf, ORT says NaN — both "undefined"
             skipped_nan += int(singular.sum())
             inf_e = inf_e & ~singular
@@ -629,11 +661,11 @@ def run_case(index: int, seed: int, kinds: list[str], symval: int = 2) -> dict:
     worst = "ok"
     comp = tp.get("component")
     if comp in BOUNDED_KINDS:
-        kinds = [k for k in kinds if k in BOUNDED_KINDS[comp]]
+        kinds = [k for k in kinds if base_kind(k) in BOUNDED_KINDS[comp]]
     if tp.get("context") in EXEMPT_CONTEXT:
         kinds = [k for k in kinds if k == "own"]
     base_name = tp["testcase"][:-4] if tp["testcase"].endswith("_f64") else tp["testcase"]
-    kinds = [k for k in kinds if (base_name, k) not in ORACLE_EXEMPT and (base_name, "*") not in ORACLE_EXEMPT]
+    kinds = [k for k in kinds if (base_name, base_kind(k)) not in ORACLE_EXEMPT and (base_name, "*") not in ORACLE_EXEMPT]
     if f64:
         declared = (tp.get("rtol_f64", tp.get("rtol", 1e-7)), tp.get("atol_f64", tp.get("atol", 1e-7)))
     else:
